@@ -131,11 +131,21 @@ def make_population(rng, i):
                 with warnings.catch_warnings():
                     warnings.simplefilter("ignore")
                     obj = stix2.parse(json.dumps(ov), allow_custom=True)
+                    if kind == "sdo20" and k % 2 == 0 and o["type"] in ("identity", "campaign", "relationship"):
+                        # 2.0-form content which the caller reads as 2.1 by naming the version on every add: what went in is that reading
+                        obj21 = stix2.parse(json.dumps(ov), allow_custom=True, version="2.1")
+                        j = norm(obj21)
+                        RAW_FORMS[(j["id"], j.get("modified"))] = (json.loads(json.dumps(ov)), "2.1")
+                        pop.append((j, None, "sdo20-read-as-2.1"))
+                        continue
                 j = norm(obj)
             except Exception:
                 continue
             pop.append((j, None if isinstance(obj, dict) else obj, kind))
     return pop
+
+
+RAW_FORMS = {}
 
 
 def add_in_form(store, which, j, obj, form, rng):
@@ -145,7 +155,12 @@ def add_in_form(store, which, j, obj, form, rng):
     try:
         with warnings.catch_warnings():
             warnings.simplefilter("ignore")
-            if form == "object" and obj is not None:
+            raw = RAW_FORMS.get((j["id"], j.get("modified")))
+            if raw is not None:
+                d, v = json.loads(json.dumps(raw[0])), raw[1]
+                store.add([d] if form == "list" else {"type": "bundle", "id": bundle_id, "objects": [d]} if form == "bundle-dict" else
+                          json.dumps(d) if form == "json-text" and which == "fs" else d, version=v)
+            elif form == "object" and obj is not None:
                 store.add(obj)
             elif form == "dict" or (form in ("object", "bundle-object") and obj is None):
                 store.add(json.loads(json.dumps(j)))
@@ -179,6 +194,14 @@ def add_group(mem, fs, items, form, rng):
         try:
             with warnings.catch_warnings():
                 warnings.simplefilter("ignore")
+                if any((j["id"], j.get("modified")) in RAW_FORMS for j, _, _ in items):
+                    # (content the caller reads as another version goes in on its own, with the version named)
+                    for j, obj, kind in items:
+                        r = add_in_form(store, which, j, obj, "dict", rng)
+                        if r != "added":
+                            raise ValueError(r)
+                    out.append("added")
+                    continue
                 members = [(obj if obj is not None and rng.random() < 0.5 else json.loads(json.dumps(j))) for j, obj, kind in items]
                 if form == "multi-list":
                     store.add(members)
